@@ -14,6 +14,7 @@ import importlib
 import json
 import multiprocessing
 import os
+import shutil
 import sys
 import time
 import traceback
@@ -153,6 +154,7 @@ def write_replay(prop, seed, case, viol, result, n=0):
         'violation': {k: viol[k] for k in ('cls', 'msg', 'sig') if k in viol},
         'seed': seed,
         'PYTHONHASHSEED': os.environ.get('PYTHONHASHSEED'),
+        'env': json.loads(os.environ['VERIF_VARIANT']) if os.environ.get('VERIF_VARIANT') else None,
         'python': sys.version,
         'source_digest': source_digest(),
         'digest': result.get('digest') if result else None,
@@ -273,6 +275,35 @@ def check(prop, tier, *, base_seed=None, budget_s=None, max_runs=None, workers=N
     wall = time.time() - t0
 
     exit_code = 0
+    variant = None
+    venv = getattr(mod, 'ENV_VARIANT', None)
+    if venv and not violations and not harness_errors and not os.environ.get('VERIF_VARIANT'):
+        # part of the budget again in a fresh interpreter started with this environment (e.g. PYTHONOPTIMIZE=1:
+        # what the code under test does must not hinge on interpreter flags either)
+        import subprocess
+        import tempfile
+        tmp = tempfile.mkdtemp(prefix='verif-variant-')
+        env = dict(os.environ, **venv, VERIF_VARIANT=json.dumps(venv), VERIF_EVIDENCE_DIR=tmp, VERIF_SEED=str(base_seed + 500))
+        share = getattr(mod, 'VARIANT_SHARE', 0.25)
+        vr = subprocess.run([sys.executable, str(VERIF / 'run.py'), 'check', prop, '--tier', tier, '--budget', str(max(5.0, budget_s * share)),
+                             '--workers', str(workers)], capture_output=True, text=True, env=env, timeout=max(600, budget_s * 4))
+        vlines = [l for l in vr.stdout.splitlines() if l.startswith('VIOLATION') or l.startswith('  class=')]
+        tail = vr.stdout.strip().splitlines()[-1] if vr.stdout.strip() else ''
+        variant = {'env': venv, 'exit': vr.returncode, 'summary': tail}
+        try:
+            vev = json.loads((Path(tmp) / f'{prop}.json').read_text())
+            variant['cases'] = vev['coverage'].get('cases')
+            variant['evaluations'] = vev['coverage'].get('evaluations')
+        except Exception:  # noqa
+            pass
+        shutil.rmtree(tmp, ignore_errors=True)
+        wall = time.time() - t0
+        if vr.returncode == 1:
+            for l in vlines:
+                print(l)
+            exit_code = 1
+        elif vr.returncode != 0:
+            harness_errors.append(f'variant run {venv} failed with exit {vr.returncode}: {vr.stdout[-1500:]} {vr.stderr[-1500:]}')
     for fid, (kf, n, seed) in sorted(known_hits.items()):
         print(f'KNOWN-FINDING: property={prop} {fid}: {kf["what"]} (hit {n}x, e.g. seed {seed})')
     reported = []
@@ -302,7 +333,7 @@ def check(prop, tier, *, base_seed=None, budget_s=None, max_runs=None, workers=N
         'seed': base_seed,
         'level': mod.LEVEL,
         'wall_s': round(wall, 2),
-        'violations': len(violations),
+        'violations': len(violations) + (1 if variant and variant['exit'] == 1 else 0),
         'coverage': {
             'evaluations': evaluations,
             'distinct_nontrivial': len(digests),
@@ -317,6 +348,7 @@ def check(prop, tier, *, base_seed=None, budget_s=None, max_runs=None, workers=N
             'faults_fired': dict(fired),
             'probes': dict(probes),
             'slowest_case': {'wall_s': slowest[0], 'seed': slowest[1]},
+            'interpreter_variant': variant,
             'probes_at_zero': [k for k in getattr(mod, 'PROBES', []) if not probes.get(k) and not fired.get(k)],
             'known_findings_hit': {k: v[1] for k, v in known_hits.items()},
             'components': getattr(mod, 'COMPONENTS', {}),
@@ -327,22 +359,39 @@ def check(prop, tier, *, base_seed=None, budget_s=None, max_runs=None, workers=N
     }
     if exit_code != 2:
         EVIDENCE.mkdir(parents=True, exist_ok=True)
-        (EVIDENCE / f'{prop}.json').write_text(json.dumps(ev, indent=1, default=repr))
+        (EVIDENCE / f'{prop}.json').write_text(json.dumps(_strkeys(ev), indent=1, default=repr))
     print(f'{prop} {tier}: cases={results_n} evaluations={evaluations} distinct={len(digests)} '
           f'violations={len(violations)} known={sum(v[1] for v in known_hits.values())} wall={wall:.1f}s exit={exit_code}')
     return exit_code
 
 
+def _strkeys(o):
+    # (JSON object keys are strings; a sample may carry anything)
+    if isinstance(o, dict):
+        return {(k if isinstance(k, (str, int, float, bool)) or k is None else repr(k)): _strkeys(v) for k, v in o.items()}
+    if isinstance(o, (list, tuple)):
+        return [_strkeys(v) for v in o]
+    return o
+
+
 def replay(path, quiet=False, in_subprocess=False):
     """Re-execute a replay file; True iff the same violation class (and digest) recurs."""
-    if in_subprocess:
+    doc = json.loads(Path(path).read_text())
+    need = doc.get('env') or {}
+    missing = {k: v for k, v in need.items() if os.environ.get(k) != v}
+    if in_subprocess or missing:
         import subprocess
+        env = dict(os.environ, **need)
+        if need:
+            env['VERIF_VARIANT'] = json.dumps(need)
         r = subprocess.run([sys.executable, str(VERIF / 'run.py'), 'replay', str(path)],
-                           capture_output=True, text=True, timeout=CASE_TIMEOUT * 2)
+                           capture_output=True, text=True, timeout=CASE_TIMEOUT * 2, env=env)
+        if not in_subprocess:
+            sys.stdout.write(r.stdout)
+            return True if r.returncode == 1 else (None if r.returncode == 2 else False)
         return r.returncode == 1 and 'REPRODUCED' in r.stdout
     from . import native
     native.import_replicat()
-    doc = json.loads(Path(path).read_text())
     mod = get_check(doc['property'])
     r = _run_one(mod, doc['case'])
     cls = doc['violation']['cls']
